@@ -31,7 +31,11 @@ STR_POOL = ["", "a", "aa", "zz", "0x00", "aa" * 31, "aa" * 33, "aa" * 32, "aa" *
             {}, True, "١", "m/١/0/0/0/0", "m/ 1/0/0/0/0", "m/+1/0/0/0/0",
             "0100000001" + "11" * 32 + "00000000" + "00" + "ffffffff" + "00" + "00000000",
             "0100000001" + "11" * 32 + "00000000" + "024c" + "ffffffff" + "00" + "00000000",
-            TX + "00", TX[:-2], "aa" * 300]
+            TX + "00", TX[:-2], "aa" * 300,
+            # strings that other decoders may take for hex / digits
+            "١١", "٠١٢٣４５", "a١", "１２", "aa\n", " aa", "aa ", "a a", "+1", "0_0",
+            "m/４４'/0'/0'/0/0", "m/44'/0'/0'/0/0\n", "m/44'/0'/0'/0/0 ", "\u0000", "aa\u0000",
+            "AA", "aA" * 32, "0X00"]
 INT_POOL = [-1, 0, 1, 5, 2 ** 31, 2 ** 32 - 1, 2 ** 32, 2 ** 63, 2 ** 64 - 1, 2 ** 64, -2 ** 64,
             10 ** 400, True, False, 1.0, 5.0, 1.5, "1", "5", None, [], {}]
 LIST_POOL = [[], [[]], [1], ["aa"], ["aa", "bb"], [None], {}, "aa", None, 0, [["aa"]],
@@ -167,6 +171,56 @@ def run_case(c):
     return Out(labels, bool(c["muts"]) and type(req) is dict)
 
 
+CROSS_POOL = [None, True, False, 0, 1, -1, 1.0, 1.5, "", "aa", [], {}, [1], {"a": 1}]
+
+
+class SingleMutations:
+    """Complete enumeration of single mutations: every node of every documented request
+    template (both modes) x {deleted, replaced by every value of its type-directed pool and of a
+    small cross-type pool}."""
+
+    def __init__(self, tier=None, seed=None):
+        self.items = []
+        for mode, pool in (("v5", TEMPLATES_V5), ("v1", TEMPLATES_V1)):
+            for name in sorted(pool):
+                tpl = pool[name]
+                for p in paths(tpl):
+                    cur = tpl
+                    for k in p:
+                        cur = cur[k]
+                    if type(cur) is int:
+                        pl, kind = INT_POOL, "int"
+                    elif type(cur) is str:
+                        pl, kind = STR_POOL, "str"
+                    elif type(cur) is list:
+                        pl, kind = LIST_POOL, "list"
+                    else:
+                        pl, kind = DICT_POOL, "dict"
+                    field = ".".join(str(x) if not isinstance(x, int) else "#" for x in p) or \
+                        "<root>"
+                    if p:
+                        self.items.append((mode, name, p, "delete", None, field))
+                    seen = []
+                    for v in list(pl) + CROSS_POOL:
+                        if any(v == x and type(v) is type(x) for x in seen):
+                            continue
+                        seen.append(v)
+                        self.items.append((mode, name, p, "replace-" + kind, v, field))
+
+    def __len__(self):
+        return len(self.items)
+
+    def __getitem__(self, i):
+        mode, name, p, kind, v, field = self.items[i]
+        pool = TEMPLATES_V5 if mode == "v5" else TEMPLATES_V1
+        req = copy.deepcopy(pool[name])
+        if kind == "delete":
+            req = setp(req, list(p), None, delete=True)
+        else:
+            req = setp(req, list(p), copy.deepcopy(v))
+        return {"mode": mode, "tpl": name, "muts": ["%s:%s" % (kind, field)], "req": req}
+
+
 REQUIRED_LABELS = {
     t: ["mode:v5", "mode:v1", "verdict:ACC", "verdict:-901", "verdict:-902", "verdict:-903",
         "verdict:-904", "verdict:-101", "verdict:-102", "verdict:-103", "verdict:-204",
@@ -186,6 +240,10 @@ def gate(tier, labels, evaluations):
 
 
 def stages(tier):
-    return [HypStage("classify", lambda t: cases(t), run_case,
+    from vlib.runner import EnumStage
+    return [EnumStage("single-mutations", SingleMutations, run_case,
+                      exhaustive={"quick": True, "thorough": True},
+                      budget_s={"quick": 100, "thorough": 300}),
+            HypStage("classify", lambda t: cases(t), run_case,
                      {"quick": 1500, "thorough": 40000},
                      budget_s={"quick": 100, "thorough": 900})]
